@@ -153,8 +153,9 @@ pub fn run(args: &Args, out: &mut Out) {
             _ => Knobs { p_send_failed: 20, p_send_inuse: if cfg.proto == Protocol::Tcp { 50 } else { 0 }, p_send_fatal: 5, p_recv_fatal: 5,
                          p_inject_foreign: 30, p_inject_neversent: 30, p_ecmp_flip: 50, ..Knobs::default() },
         };
+        let injected = knobs.p_inject_foreign > 0 || knobs.p_inject_neversent > 0;
         let (env, deliv) = gen_env(&mut rng, &cfg, knobs);
-        let stable = env.alt_path.is_empty();
+        let stable = env.alt_path.is_empty() && !injected;
         let t0 = vclock::BASE_NS + rng.below(1_000_000_000);
         vclock::set(t0);
         let tick = *rng.pick(&[0u64, 0, 1, 1000]);
